@@ -30,6 +30,10 @@ def decv(tok):
     return [] if tok == "_" else [dec(t) for t in tok.split(",")]
 
 
+RETAINED = []     # (label, returned array object, byte snapshot) — re-verified at the end of the run (G8)
+_CUR = {"label": None}
+
+
 def classify(fn, dim):
     """run fn(); classify the result as the property sees it"""
     try:
@@ -39,6 +43,8 @@ def classify(fn, dim):
         return "raise", type(e).__name__, None
     if r is None:
         return "none", None, None
+    if isinstance(r, np.ndarray):
+        RETAINED.append((_CUR["label"], r, r.tobytes()))
     a = np.asarray(r, dtype=float) if not hasattr(r, "todense") else np.asarray(r.todense(), dtype=float)
     if a.ndim == 2 and a.shape == (1, 1) and dim == 1:
         a = a.ravel()             # a 1x1 array for a scalar variable still carries the one derivative
@@ -101,6 +107,42 @@ def oracle_value(ctx, key, desc, logd, grad, x, lo=None, hi=None, tol=ORTOL, in_
     return True
 
 
+def input_variants(x):
+    """the same numbers in other containers / dtypes / layouts (G1, G7)"""
+    x = np.asarray(x, dtype=float)
+    out = [("list", [float(v) for v in x])]
+    if np.all(x == np.round(x)):
+        out.append(("int64", x.astype(np.int64)))
+        out.append(("int32", x.astype(np.int32)))
+    if np.all(x.astype(np.float32).astype(float) == x):
+        out.append(("float32", x.astype(np.float32)))
+    out.append(("strided", np.repeat(x, 2)[::2]))
+    out.append(("negstride", x[::-1].copy()[::-1]))
+    ro = x.copy(); ro.setflags(write=False)
+    out.append(("readonly", ro))
+    return out
+
+
+def check_variants(ctx, key, desc, call, x, base, logd=None):
+    """gradient at the same numbers in another representation: the same vector (or a refusal); the caller's
+    array is never modified (G2)"""
+    for name, xv in input_variants(x):
+        snap = xv.tobytes() if isinstance(xv, np.ndarray) else list(xv)
+        st, exc, val = classify(lambda: call(xv), len(base))
+        after = xv.tobytes() if isinstance(xv, np.ndarray) else list(xv)
+        if snap != after:
+            ctx.fail(key + f":input-{name}:mutated", {**desc, "variant": name}, "caller's point unchanged", "modified", "gradient modified the caller's evaluation point")
+        if st == "raise":
+            continue          # refusing an unusual container is allowed
+        # float32 input: transcendental functions are then evaluated in single precision (rounding ~1e-7 relative,
+        # floating point is not carried); dtype bugs (integer truncation, buffers of the input's dtype) are O(1)
+        if st != "value" or not cmp_vec(list(base), val.tolist(), 2e-5 if name == "float32" else 1e-7):
+            ctx.disagree(key + f":input-{name}", {**desc, "variant": name}, list(base), None if val is None else val.tolist(),
+                         "same numbers in another dtype/layout give another gradient")
+            ctx.fail(key + f":input-{name}", {**desc, "variant": name}, list(base), f"{st}: {None if val is None else val.tolist()}",
+                     "gradient depends on the dtype/layout of the evaluation point, not only on its value")
+
+
 def cmp_vec(model_vals, impl_vals, tol=TOL):
     return len(model_vals) == len(impl_vals) and all(close(a, b, tol) for a, b in zip(model_vals, impl_vals))
 
@@ -131,6 +173,24 @@ def run(ctx):
 
     def bump(s):
         stat_hist[s] = stat_hist.get(s, 0) + 1
+    import time as _time
+    timing = {"lean_drive_s": 0.0, "lean_drive_calls": 0, "sections": {}}
+    ctx.extra_cov["timing"] = timing
+    _drive = ctx.lean.drive
+    def drive_(lines, driver=None):
+        t0 = _time.time()
+        out = _drive(lines, driver)
+        timing["lean_drive_s"] = round(timing["lean_drive_s"] + _time.time() - t0, 2); timing["lean_drive_calls"] += 1
+        return out
+    ctx.lean.drive = drive_
+    _t_start = _time.time()
+    _case = ctx.case
+    def case_(kind, desc, nontrivial=True):
+        timing["sections"][kind] = round(_time.time() - _t_start, 1)      # time at which the kind was last touched
+        _CUR["label"] = (kind, desc)
+        _case(kind, desc, nontrivial)
+    ctx.case = case_
+    RETAINED.clear()
 
     # geometry makers -------------------------------------------------------
     def geom(kind, n):
@@ -336,8 +396,8 @@ def run(ctx):
                     ctx.note(f"logd constant differs from model at {fam} {dimcls} (gradient still its derivative)")
                 continue
             held = oracle_value(ctx, key, desc, dist.logd, val, xa, lo, hi)
-            if not ok and held:
-                pass  # reported by finish as correspondence-broken without failing input
+            if ok and held and mode == "in":
+                check_variants(ctx, key, desc, dist.gradient, xa, val)
 
     # ======================================================================= 2. status table: geometry / conditional / FD
     st_cases = []
@@ -443,6 +503,8 @@ def run(ctx):
                     M = M + np.triu(np.ones((n, n)), 1) * 0.5   # non-triangular, non-symmetric square root
         mu = [dy(rng, -3, 3) for _ in range(n)] if rng.random() < 0.8 else [dy(rng, -3, 3)]
         x = [dy(rng, -4, 4, 8) for _ in range(n)]
+        if k % 10 == 9:
+            x = [mu[j] if len(mu) > 1 else mu[0] for j in range(n)]      # exactly at the mean: gradient exactly 0
         gcases.append((form, shape, n, x, mu, M))
     glines = [f"gauss {form} {qv(x)} {qv(mu)} {qm(M)}" for form, shape, n, x, mu, M in gcases]
     FDEPS = 2.0 ** -12
@@ -498,7 +560,8 @@ def run(ctx):
                 mism["model_grad_ne_model_deriv"] += 1
             if not cmp_vec(mg, val.tolist(), 1e-8):
                 ctx.disagree(key, desc, mg, val.tolist(), "gradient differs from the model")
-            oracle_value(ctx, key, desc, dist.logd, val, xa)
+            if oracle_value(ctx, key, desc, dist.logd, val, xa):
+                check_variants(ctx, key, desc, dist.gradient, xa, val)
         elif st == "raise" and form == "sqrtprec":
             # FD must then give the derivative of the same logd (exact model: fdquad)
             with quiet():
@@ -805,6 +868,16 @@ def run(ctx):
             continue
         if st != "value":
             continue
+        # positional vs keyword passing of the evaluation point: the same vector (or a refusal)
+        try:
+            pname = target.get_parameter_names()[0]
+            stk, exck, valk = classify(lambda: target.gradient(**{pname: xs}), n)
+            if stk != "raise" and (stk != "value" or not cmp_vec(val.tolist(), valk.tolist(), 1e-12)):
+                ctx.disagree(key + ":keyword", desc, val.tolist(), f"{stk}: {None if valk is None else valk.tolist()}", "keyword call differs from positional call")
+                ctx.fail(key + ":keyword", desc, val.tolist(), f"{stk}: {None if valk is None else valk.tolist()}",
+                         "gradient(x) and gradient(<name>=x) differ")
+        except Exception:  # noqa
+            pass
         # --- model value (closed form only; FD is covered by the oracle)
         if not fd and parts is not None:
             z = dgeo.par2fun(xs) if hasattr(dgeo, "par2fun") else xs
@@ -843,7 +916,7 @@ def run(ctx):
     # only on the point's CURRENT value.  After every call the returned vector must equal that prediction and the
     # derivative of the object's own logd (or of direction·forward for a bare Model) at the current value.
     HKINDS = ["model", "likelihood", "posterior", "multi", "dist"]
-    HMODELS = ["jacobian", "direction-jacobian", "matrix", "fun+adjoint", "pde-jacobian", "pde-gradient"]
+    HMODELS = ["jacobian", "direction-jacobian", "matrix", "fun+adjoint", "pde-jacobian", "pde-gradient", "jacobian-samebuf"]
     HGEOMS = ["default", "Continuous1D", "Mapped+grad", "Discrete"]
     OPS = ["inplace", "inplace", "fresh-equal-earlier", "different", "inplace", "logd-then-inplace", "forward-then-inplace",
            "different", "inplace", "fresh-equal-earlier", "inplace"]
@@ -905,6 +978,14 @@ def run(ctx):
                         mod = Model(F, m, dgeo, jacobian=J)
                     elif mk == "direction-jacobian":
                         mod = Model(F, m, dgeo, gradient=lambda direction, wrt, J=J: direction @ J(wrt))
+                    elif mk == "jacobian-samebuf":
+                        # user callables that return THE SAME array object on every call (persistent buffers)
+                        bufF = np.zeros(m); bufJ = np.zeros((m, n))
+                        def Fb(z, F=F, bufF=bufF):
+                            bufF[:] = F(z); return bufF
+                        def Jb(z, J=J, bufJ=bufJ):
+                            bufJ[:] = J(z); return bufJ
+                        mod = Model(Fb, m, dgeo, jacobian=Jb)
                     else:
                         from cuqi.pde import SteadyStateLinearPDE
                         pde = SteadyStateLinearPDE(lambda p, F=F, m=m: (np.eye(m), F(p)))
@@ -1182,3 +1263,274 @@ def run(ctx):
         if mg is None or not cmp_vec(mg.tolist(), val.tolist(), 1e-8):
             ctx.disagree(key, desc, out[:120] if mg is None else mg.tolist(), val.tolist(),
                          "gradient differs from the model (fun2par of the function-space gradient by the geometry's order)")
+
+    # ======================================================================= 9. Gaussians on both sides of config.MIN_DIM_SPARSE
+    # For dim > MIN_DIM_SPARSE dense matrices go through eigendecompositions with a truncated (pseudo-inverse)
+    # spectrum.  Whatever the branch, the log-density is -½‖sqrtprec (x-mean)‖² + const, so the gradient must be
+    # -(sqrtprecᵀ sqrtprec)(x-mean) (theorems normSq_eq_quad_gram + gauss_grad_eq_deriv): the precision used by
+    # `_gradient` has to be the one the density uses.  P = sqrtprecᵀ sqrtprec is read from the object (leaf datum),
+    # the Lean model evaluates -(P (x-mean)) / Jᵀ P (d - A x) exactly, the oracle differentiates the object's logd.
+    MDS = int(cuqi.config.MIN_DIM_SPARSE)
+    def spectrum_cov(kind, n, rs):
+        Q, _ = np.linalg.qr(rs.randn(n, n))
+        if kind == "well":
+            sv = np.linspace(1.0, 2.0, n)
+        elif kind == "ill":                      # a few eigenvalues far below the truncation threshold (1e6*eps*max)
+            sv = np.linspace(1.0, 2.0, n); sv[:3] = 1e-12
+        elif kind == "null":                     # exactly rank deficient
+            sv = np.linspace(1.0, 2.0, n); sv[:2] = 0.0
+        else:                                    # smooth kernel: rapidly decaying spectrum
+            t = np.linspace(0, 1, n)
+            C = np.exp(-(t[:, None] - t[None, :]) ** 2 / (2 * 0.2 ** 2))
+            return 0.5 * (C + C.T), None
+        C = (Q * sv) @ Q.T
+        return 0.5 * (C + C.T), (Q, sv)
+    def norm_oracle(key, desc, logd, g, x, rel=1e-4):
+        """norm-wise Richardson oracle (the log-density is quadratic here: central differences are exact up to rounding)"""
+        f = lambda z: float(np.asarray(logd(z)).ravel()[0])
+        with quiet():
+            l0 = f(x)
+        if not math.isfinite(l0):
+            ctx.note(f"logd not finite for {key}; oracle skipped"); return True
+        ng, err = num_grad(f, x)
+        if np.linalg.norm(ng - g) > rel * (np.linalg.norm(ng) + np.linalg.norm(g)) + 4 * np.linalg.norm(err) + 1e-9:
+            ctx.fail(key, desc, [float(v) for v in ng[:8]], [float(v) for v in np.asarray(g)[:8]],
+                     "returned gradient is not the derivative of the same object's log-density (first components shown)")
+            return False
+        return True
+    bcases = []
+    for k in range(14 * S):
+        form = ["cov", "cov", "cov", "sqrtcov", "prec", "cov", "sqrtprec"][k % 7]
+        spec = ["ill", "kernel", "well", "ill", "well", "null", "well"][k % 7]
+        n = [MDS + 5, MDS + 1, MDS, MDS + 2, MDS + 3, MDS + 8, MDS + 1][k % 7] if k % 3 else MDS + 1 + (k % 4)
+        if n <= MDS:
+            spec = "well"                        # the small-dim dense branch inverts the covariance outright
+        role = ["prior", "likelihood", "posterior"][(k // 2) % 3]
+        bcases.append((form, spec, n, role, k))
+    blines, bmeta = [], []
+    for form, spec, n, role, k in bcases:
+        rs = np.random.RandomState(ctx.seed * 1000 + k)
+        desc = {"gaussian-large": form, "spectrum": spec, "n": n, "role": role, "MIN_DIM_SPARSE": MDS}
+        ctx.case("gauss-large", desc)
+        key = f"Gaussian-large:{form}:{spec}:{'above' if n > MDS else 'at-or-below'}-MIN_DIM_SPARSE:{role}"
+        C, qs = spectrum_cov(spec, n, rs)
+        if form == "cov":
+            arg = C
+        elif form == "prec":
+            arg = C                                      # a well-conditioned SPD matrix used as precision
+        elif form == "sqrtcov":
+            Q, sv = qs
+            arg = Q * np.sqrt(sv)                        # R with R Rᵀ = C (non-symmetric square root)
+        else:
+            arg = np.linalg.cholesky(C).T
+        mean = np.round(rs.randn(n) * 4) / 4
+        try:
+            with quiet():
+                if role == "prior":
+                    dist = D.Gaussian(mean, **{form: arg}); target = dist; npar = n
+                    xs = mean + np.round(rs.randn(n) * 4) / 4
+                else:
+                    A = np.round(rs.randn(n, 4) * 2) / 2
+                    mod = LinearModel(A)
+                    dist = D.Gaussian(mod, **{form: arg})
+                    data = np.round((A @ rs.randn(4) + rs.randn(n)) * 4) / 4
+                    lik = dist.to_likelihood(data); npar = 4
+                    xs = np.round(rs.randn(4) * 4) / 4
+                    target = lik if role == "likelihood" else D.Posterior(lik, D.Gaussian(np.zeros(4), 2.0))
+                R = dist.sqrtprec
+                R = np.asarray(R.todense()) if hasattr(R, "todense") else np.asarray(R)
+                Plog = R.T @ R
+        except Exception as e:  # noqa
+            ctx.note(f"large Gaussian refused at construction {desc}: {e!r}"[:200]); continue
+        st, exc, val = classify(lambda: target.gradient(xs), npar)
+        bump(f"gauss-large:{form}:{spec}:{st}")
+        if form == "sqrtprec":
+            if st != "raise":
+                ctx.disagree(key, desc, "raise", st, "sqrtprec form has no `prec`: refusal expected")
+                if st == "value":
+                    norm_oracle(key, desc, target.logd, val, xs)
+            continue
+        if st != "value":
+            ctx.disagree(key, desc, "value", f"{st}({exc})", "status differs")
+            if st in ("none", "not-vector", "nan"):
+                ctx.fail(key, desc, "gradient vector", st, "no gradient vector")
+            continue
+        if role == "prior":
+            blines.append(f"pgrad {qv(xs)} {qv(mean)} {qm(Plog)}"); extra = np.zeros(n)
+        else:
+            blines.append(f"lik {qv(data - A @ xs)} {qm(A)} {qm(Plog)} _")
+            extra = np.zeros(4) if role == "likelihood" else -xs / 2.0
+        bmeta.append((key, desc, extra, val))
+        norm_oracle(key, desc, target.logd, val, xs)
+    for (key, desc, extra, val), out in zip(bmeta, ctx.lean.drive(blines)):
+        mg = np.array(decv(out.split()[1])) + extra
+        if np.linalg.norm(mg - val) > 1e-7 * (1.0 + np.linalg.norm(mg)):
+            ctx.disagree(key, desc, mg[:8].tolist(), val[:8].tolist(),
+                         "gradient is not -(sqrtprecᵀ sqrtprec)(x-mean): `prec` is not the precision the log-density uses")
+
+    # ======================================================================= 10. reconfiguration histories on one object
+    # (a) enable_FD(eps) / enable_FD() / disable_FD() in any order, then gradient: the Lean state machine (`fdhist`)
+    #     says which mode applies (closed form, or forward difference with which spacing);
+    # (b) parameters re-assigned through their setters after a first gradient call: the result must be that of a
+    #     fresh object with the current parameters.
+    def fd_objects():
+        n = 3
+        mu = np.array([dy(rng, -2, 2) for _ in range(n)]); C = rand_spd(n)
+        A = np.array([[rng.randint(-2, 2) for _ in range(n)] for _ in range(2)], dtype=float)
+        Bq = np.array([[rng.choice([1, -1, 0.5]) for _ in range(n)] for _ in range(2)], dtype=float)
+        F = lambda z: A @ z + Bq @ (z * z); J = lambda z: A + 2 * Bq * z[None, :]
+        data = np.array([dy(rng, -2, 2) for _ in range(2)])
+        mk_lik = lambda: D.Gaussian(Model(F, 2, n, jacobian=J), 2.0).to_likelihood(data)
+        objs = {
+            "gaussian": (lambda: D.Gaussian(mu, cov=C), True, False),
+            "gmrf": (lambda: D.GMRF(mu, 2.0), True, False),
+            "beta": (lambda: D.Beta(np.array([2.0, 3.0, 1.5]), 2.5), True, False),
+            "cauchy": (lambda: D.Cauchy(mu, 2.0), True, True),            # overrides `gradient`: FD never used
+            "uniform": (lambda: D.Uniform(np.array([-4.0, -4, -4]), 4.0), True, True),
+            "Laplace": (lambda: D.Laplace(mu, 2.0), False, False),
+            "Gamma": (lambda: D.Gamma(np.array([2.0, 3.0, 2.5]), 1.5), False, False),
+            "LMRF": (lambda: D.LMRF(mu, 2.0), False, False),
+            "Normal": (lambda: D.Normal(mu, 2.0), False, False),
+            "likelihood": (mk_lik, True, False),
+            "posterior": (lambda: D.Posterior(mk_lik(), D.Gaussian(mu, 2.0)), True, False),
+            "posterior-Cauchy-prior": (lambda: D.Posterior(mk_lik(), D.Cauchy(mu, 2.0)), True, False),
+        }
+        return objs, n
+    FDOPS = ["e:1/100", "d", "g", "e:1/64", "g", "d", "g", "e:_", "g", "e:1/100", "e:1/1000000", "g", "d", "d", "g", "e:_", "d", "g"]
+    scripts = []
+    objs, n_fd = fd_objects()
+    for name in objs:
+        for rep in range(2 * S):
+            if rep == 0:
+                sc = ["g", "e:1/100", "g", "d", "g", "e:_", "d", "g"]       # always contains enable -> disable -> gradient
+            else:
+                st0 = rng.randrange(len(FDOPS)); L = rng.randint(5, 9)
+                sc = [FDOPS[(st0 + j) % len(FDOPS)] for j in range(L)] + ["g"]
+            scripts.append((name, sc))
+    modes = ctx.lean.drive(["fdhist " + " ".join(sc) for _, sc in scripts])
+    for (name, sc), mline in zip(scripts, modes):
+        mk, analytic, overrides = objs[name]
+        try:
+            with quiet():
+                obj = mk(); fresh = mk()
+        except Exception as e:  # noqa
+            ctx.note(f"fd-history constructor refused {name}: {e!r}"[:160]); continue
+        xs = np.array([0.5, 0.25, 0.625][:n_fd]) if name in ("beta", "Gamma") else np.array([dy(rng, -2, 2, 8) + 0.0625 for _ in range(n_fd)])
+        mlist = mline.split(); gi = 0
+        done = []
+        for op in sc:
+            done.append(op)
+            if op == "d":
+                with quiet():
+                    obj.disable_FD()
+                continue
+            if op.startswith("e:"):
+                with quiet():
+                    if op == "e:_":
+                        obj.enable_FD()
+                    else:
+                        obj.enable_FD(float(Fraction(op[2:])))
+                continue
+            mode = mlist[gi]; gi += 1
+            desc = {"fd-history": name, "ops": list(done), "x": xs.tolist(), "model_mode": mode}
+            ctx.case("fd-history", desc)
+            key = f"fd-history:{name}:{'closed' if mode == 'closed' or overrides else 'fd'}-after-{'disable' if 'd' in done else 'enable-only' if len(done) > 1 else 'fresh'}"
+            st, exc, val = classify(lambda: obj.gradient(xs), n_fd)
+            bump(f"fd-history:{name}:{st}")
+            f_logd = lambda z, obj=obj: float(np.asarray(obj.logd(z)).ravel()[0])
+            if mode == "closed" or overrides:
+                # the object itself says FD is off?
+                with quiet():
+                    reports_off = (obj.FD_enabled is False)
+                if mode == "closed" and not reports_off:
+                    ctx.disagree(key, desc, "FD_enabled False", "True", "FD flag differs from the state machine")
+                if not analytic:
+                    if st != "raise":
+                        ctx.disagree(key, desc, "raise", f"{st}", "no analytic gradient and FD off: refusal expected")
+                        if reports_off:
+                            ctx.fail(key, desc, "NotImplementedError (no analytic gradient, FD_enabled is False)",
+                                     f"{st}: {None if val is None else val.tolist()}",
+                                     "a vector is returned although no analytic gradient exists and the finite-difference option is off")
+                    continue
+                if st != "value":
+                    ctx.disagree(key, desc, "value", f"{st}({exc})", "closed-form gradient expected"); continue
+                st_f, _, val_f = classify(lambda: fresh.gradient(xs), n_fd)
+                if st_f == "value" and not cmp_vec(val_f.tolist(), val.tolist(), 1e-10):
+                    ctx.disagree(key, desc, val_f.tolist(), val.tolist(), "differs from a fresh object with FD off")
+                oracle_value(ctx, key, desc, f_logd, val, xs, tol=2e-6, in_support=True)
+            else:
+                eps = float(Fraction(mode[3:]))
+                if st != "value":
+                    ctx.disagree(key, desc, f"value-fd({eps})", f"{st}({exc})", "FD gradient expected")
+                    ctx.fail(key, desc, "finite-difference gradient (FD enabled)", f"{st}({exc})", "with the finite-difference option switched on the call still refuses")
+                    continue
+                with quiet():
+                    f0 = f_logd(xs)
+                    fdm = np.array([(f_logd(xs + eps * np.eye(n_fd)[i]) - f0) / eps for i in range(n_fd)])   # fdGrad on the object's logd
+                if not cmp_vec(fdm.tolist(), val.tolist(), 1e-6 + 1e-14 * abs(f0) / eps):
+                    ctx.disagree(key, desc, fdm.tolist(), val.tolist(), f"not the forward difference with the spacing {eps} of the last enable_FD")
+                oracle_value(ctx, key, desc, f_logd, val, xs, tol=max(2e-4, 40 * eps), in_support=True)
+        # (b) re-assignment through setters after first use
+    def reassign_cases():
+        n = 3
+        mu1 = np.array([dy(rng, -2, 2) for _ in range(n)]); mu2 = mu1 + np.array([0.5, -1.0, 0.25])
+        C1, C2 = rand_spd(n), rand_spd(n)
+        return [
+            ("gaussian.mean", lambda: D.Gaussian(mu1, cov=C1), lambda o: setattr(o, "mean", mu2), lambda: D.Gaussian(mu2, cov=C1)),
+            ("gaussian.cov", lambda: D.Gaussian(mu1, cov=C1), lambda o: setattr(o, "cov", C2), lambda: D.Gaussian(mu1, cov=C2)),
+            ("gaussian.cov-scalar", lambda: D.Gaussian(mu1, cov=C1), lambda o: setattr(o, "cov", 0.5), lambda: D.Gaussian(mu1, cov=0.5)),
+            ("gaussian.prec", lambda: D.Gaussian(mu1, prec=C1), lambda o: setattr(o, "prec", C2), lambda: D.Gaussian(mu1, prec=C2)),
+            ("gaussian.sqrtcov", lambda: D.Gaussian(mu1, sqrtcov=np.diag([1.0, 2.0, 0.5])), lambda o: setattr(o, "sqrtcov", np.diag([2.0, 1.0, 4.0])), lambda: D.Gaussian(mu1, sqrtcov=np.diag([2.0, 1.0, 4.0]))),
+            ("cauchy.location", lambda: D.Cauchy(mu1, 2.0), lambda o: setattr(o, "location", mu2), lambda: D.Cauchy(mu2, 2.0)),
+            ("cauchy.scale", lambda: D.Cauchy(mu1, 2.0), lambda o: setattr(o, "scale", 0.5), lambda: D.Cauchy(mu1, 0.5)),
+            ("gmrf.mean", lambda: D.GMRF(mu1, 2.0), lambda o: setattr(o, "mean", mu2), lambda: D.GMRF(mu2, 2.0)),
+            ("gmrf.prec", lambda: D.GMRF(mu1, 2.0), lambda o: setattr(o, "prec", 0.5), lambda: D.GMRF(mu1, 0.5)),
+            ("cmrf.location", lambda: D.CMRF(mu1, 2.0), lambda o: setattr(o, "location", mu2), lambda: D.CMRF(mu2, 2.0)),
+            ("cmrf.scale", lambda: D.CMRF(mu1, 2.0), lambda o: setattr(o, "scale", 0.5), lambda: D.CMRF(mu1, 0.5)),
+            ("lognormal.mean", lambda: D.Lognormal(mu1, 2.0), lambda o: setattr(o, "mean", mu2), lambda: D.Lognormal(mu2, 2.0)),
+            ("lognormal.cov", lambda: D.Lognormal(mu1, 2.0), lambda o: setattr(o, "cov", 0.5), lambda: D.Lognormal(mu1, 0.5)),
+            ("beta.alpha", lambda: D.Beta(np.array([2.0, 3.0, 1.5]), 2.5), lambda o: setattr(o, "alpha", np.array([1.5, 2.0, 4.0])), lambda: D.Beta(np.array([1.5, 2.0, 4.0]), 2.5)),
+            ("invgamma.scale", lambda: D.InverseGamma(2.0, -1.0, 1.5), lambda o: setattr(o, "scale", np.array([3.0])), lambda: D.InverseGamma(2.0, -1.0, 3.0)),
+            ("smoothedlaplace.beta", lambda: D.SmoothedLaplace(mu1, 2.0, 0.25), lambda o: setattr(o, "beta", 1.0), lambda: D.SmoothedLaplace(mu1, 2.0, 1.0)),
+            ("smoothedlaplace.location", lambda: D.SmoothedLaplace(mu1, 2.0, 0.25), lambda o: setattr(o, "location", mu2), lambda: D.SmoothedLaplace(mu2, 2.0, 0.25)),
+            ("uniform.high", lambda: D.Uniform(np.array([-4.0, -4, -4]), 4.0), lambda o: setattr(o, "high", 0.25), lambda: D.Uniform(np.array([-4.0, -4, -4]), 0.25)),
+        ]
+    for rep in range(S):
+        for name, mk, reassign, mk_new in reassign_cases():
+            fam0 = name.split(".")[0]
+            xs = np.array([0.5, 0.375, 0.625]) if fam0 in ("beta", "lognormal", "invgamma", "uniform") else np.array([dy(rng, -2, 2, 8) + 0.0625 for _ in range(3)])
+            desc = {"reassign": name, "x": xs.tolist()}
+            ctx.case("reassign-after-use", desc)
+            key = f"reassign:{name}"
+            try:
+                with quiet():
+                    obj = mk()
+                    n_ = obj.dim
+                    xs_ = xs[:n_]
+                    obj.gradient(xs_); obj.logd(xs_)          # first use (fills whatever is cached)
+                    reassign(obj)
+                    new = mk_new()
+            except Exception as e:  # noqa
+                ctx.note(f"reassign case refused {name}: {e!r}"[:160]); continue
+            st, exc, val = classify(lambda: obj.gradient(xs_), n_)
+            st_f, exc_f, val_f = classify(lambda: new.gradient(xs_), n_)
+            bump(f"reassign:{st}")
+            if st != st_f or (st == "value" and not cmp_vec(val_f.tolist(), val.tolist(), 1e-9)):
+                ctx.disagree(key, desc, f"{st_f}: {None if val_f is None else val_f.tolist()}", f"{st}: {None if val is None else val.tolist()}",
+                             "after re-assigning the parameter the gradient is not that of a fresh object with the current parameters")
+            if st == "value":
+                # the object's own logd after the re-assignment
+                oracle_value(ctx, key, desc, lambda z, obj=obj: float(np.asarray(obj.logd(z)).ravel()[0]), val, xs_,
+                             [0.0] * n_ if fam0 in ("beta", "lognormal") else None, [1.0] * n_ if fam0 == "beta" else None)
+            elif st == "nan" and st_f == "nan":
+                pass
+
+    # ======================================================================= 11. retained outputs re-verified (G8)
+    ctx.case("retained-outputs", {"n_arrays": len(RETAINED)})
+    for label, arr, snap in RETAINED:
+        if arr.tobytes() != snap:
+            kind, d_ = label if label else ("?", {})
+            ctx.fail(f"retained-output-overwritten:{kind}", d_, "returned array unchanged by later calls", "changed",
+                     "an array returned by an earlier gradient call was overwritten by a later call")
+    ctx.case = _case
+    ctx.lean.drive = _drive
